@@ -183,6 +183,83 @@ def _worker(task):
     return nev, None
 
 
+class _FakeHalos:
+    def __init__(self, colnames):
+        self.colnames = list(colnames)
+
+
+def multi_column_loaders(run):
+    """the loaders that fill several columns in one call (light-cone pos/vel interpolation, eigenvector triples), called natively on
+    numpy columns: the value of every produced column must not depend on WHICH of the co-requested columns the loader was invoked
+    for, nor on which other columns are present - and equals the documented expression for the interpolation loader"""
+    import re as _re
+    from abacusnbody.data import compaso_halo_catalog as chc
+    obj = chc.CompaSOHaloCatalog.__new__(chc.CompaSOHaloCatalog)
+    obj.header = {'BoxSize': 37.5, 'VelZSpace_to_kms': 2917.0}
+    obj.convert_units, obj.halo_lc, obj.cleaned, obj.verbose = True, True, False, False
+    obj._setup_halo_field_loaders(passthrough=False)
+    rng = np.random.default_rng(run.seed + 3)
+    n = 9
+    # halos whose averaged position / velocity is available, not available, and the corner cases where only one of the two is zero
+    pos_avg = rng.random((n, 3)) + 0.1
+    vel_avg = rng.random((n, 3)) + 0.1
+    pos_avg[[1, 4, 6]] = 0.0
+    vel_avg[[1, 5, 6]] = 0.0
+    raw = dict(pos_avg=pos_avg, vel_avg=vel_avg, pos_interp=rng.random((n, 3)) + 5, vel_interp=rng.random((n, 3)) + 7,
+               origin=rng.integers(0, 6, n))
+    avail = np.any(pos_avg, axis=1)          # documented: the averaged quantities are used where the averaged POSITION is available
+    want = dict(pos_interp=np.where(avail[:, None], raw['pos_avg'], raw['pos_interp']), vel_interp=np.where(avail[:, None], raw['vel_avg'], raw['vel_interp']))
+    nev, bad = 0, None
+
+    def loader_for(name):
+        ms = [(pat, pat.fullmatch(name)) for pat in obj.halo_field_loaders if pat.fullmatch(name)]
+        return ms[0] if len(ms) == 1 else (None, None)
+    for called, cols in (('pos_interp', ['pos_interp']), ('vel_interp', ['vel_interp']), ('pos_interp', ['pos_interp', 'vel_interp']),
+                         ('vel_interp', ['pos_interp', 'vel_interp']), ('vel_interp', ['vel_interp', 'pos_interp', 'N'])):
+        pat, m = loader_for(called)
+        if pat is None:
+            continue
+        try:
+            out = obj.halo_field_loaders[pat](m, {k: v.copy() for k, v in raw.items()}, _FakeHalos(cols))
+        except Exception as ex:      # noqa
+            bad = bad or (dict(called_for=called, present=cols), f'light-cone interpolation loader raised {ex!r}')
+            continue
+        nev += 1
+        cols_out = out if isinstance(out, dict) else {called: out}
+        for k, v in cols_out.items():
+            if k in want and not np.array_equal(np.asarray(v), want[k]) and not bad:
+                rows = np.nonzero(np.any(np.asarray(v) != want[k], axis=1))[0].tolist()
+                bad = (dict(called_for=called, present=cols, column=k, rows=rows),
+                       f'column {k} produced while loading {called} with columns {cols} differs from where(any(pos_avg), avg, interp) in rows {rows}')
+    # eigenvector triples: each of Min / Mid / Maj the same whichever member triggered the load
+    codes = rng.integers(0, 65340, n).astype(np.uint16)
+    for rnv in ('sigmar_eigenvecs', 'sigmav_eigenvecs'):
+        ref = None
+        for called in ('Min', 'Mid', 'Maj'):
+            name = f'{rnv}{called}_com'
+            pat, m = loader_for(name)
+            if pat is None:
+                continue
+            for cols in ([name], [f'{rnv}Min_com', f'{rnv}Mid_com', f'{rnv}Maj_com']):
+                try:
+                    out = obj.halo_field_loaders[pat](m, {f'{rnv}_com_u16': codes.copy()}, _FakeHalos(cols))
+                except Exception as ex:      # noqa
+                    bad = bad or (dict(called_for=name, present=cols), f'eigenvector loader raised {ex!r}')
+                    continue
+                nev += 1
+                for k, v in (out.items() if isinstance(out, dict) else [(name, out)]):
+                    if ref is None:
+                        ref = {}
+                    if k in ref and not np.array_equal(ref[k], np.asarray(v)) and not bad:
+                        bad = (dict(called_for=name, present=cols, column=k), f'column {k} depends on which member of the triple triggered the load')
+                    ref.setdefault(k, np.asarray(v))
+    if bad:
+        run.bounded_violation('multi-column loader output depends on the co-requested columns', bad[0], bad[1])
+    run.add_bounded('multi-column loaders (light-cone interpolation, eigenvector triples) called natively for every triggering column / column set', nev, nev,
+                    '9 halos incl. averaged position and velocity both / neither / only one available; 2 eigenvector families x 3 triggering members x alone / all three',
+                    [dict(called_for='vel_interp', present=['pos_interp', 'vel_interp'])])
+
+
 def check(run):
     run.level = 'other'
     # 1. loader purity on the running closures (E2)
@@ -205,6 +282,7 @@ def check(run):
     run.add_bounded('_setup_fields / _get_halo_fields_dependencies on their finite option spaces (native execution)', n1 + n2, n1 + n2,
                     'every valid column alone + all + default + pairs x cleaned x light cone x load_AB in {[], A, B, AB}; dependency order for every valid name',
                     [dict(fields=['N'], cleaned=False, load_AB=['A'])], exhaustive=True)
+    multi_column_loaders(run)
     # 4. bounded co-request matrix on real loads
     user, clean, lc = all_names()
     NCH = 8
